@@ -121,6 +121,13 @@ impl ServerUtil {
         }
     { unimplemented!() }
 }
+impl ServerUtil {
+    // ServerUtil::extract_two_cstrs scans with iter().position (no Verus specification): contract only, listed as assumed
+    #[verifier::external_body]
+    pub fn extract_two_cstrs(buf: &[u8]) -> (r: Result<(&CStr, &CStr)>)
+        ensures r is Ok <==> two_ok(buf@), r is Ok ==> r->Ok_0.0@ == cstr_of(buf@) && r->Ok_0.1@ == second_of(buf@)
+    { unimplemented!() }
+}
 pub trait MetricsHook {
     fn collect(&self, ih: &InHeader);
     fn on_init_params(&self, init_params: &InitParams);
@@ -133,7 +140,7 @@ pub trait ZeroCopyWriter { spec fn zw_buf(&self) -> Seq<u8>; spec fn zw_rest(&se
 pub trait ZeroCopyReader { }
 // T8: a filesystem's read only APPENDS to the writer it is given and returns the number of bytes it appended
 pub open spec fn zw_appended<W: ZeroCopyWriter>(o: W, n: W, r: io::Result<usize>) -> bool {
-    n.zw_rest() == o.zw_rest() && (match r {
+    n.zw_rest() == o.zw_rest() && n.zw_buf().len() <= n.zw_rest().1 /* a writer never holds more than its capacity */ && (match r {
         Ok(c) => n.zw_buf().len() == o.zw_buf().len() + c && n.zw_buf().subrange(0, o.zw_buf().len() as int) == o.zw_buf(),
         Err(_) => true })
 }
